@@ -442,6 +442,32 @@ def _anc_until(n, stop):
         yield a
 
 
+def persist_order_checks(r, repo):
+    ds = repo.func("parglare.tables.persist._dump_state")
+    da = repo.func("parglare.tables.persist._dump_actions")
+    rd = repo.func("parglare.tables.persist.table_from_serializable")
+    # order preservation: loops over actions / cells iterate the container itself
+    for fn in (ds, da, rd, repo.func("parglare.tables.persist.table_to_serializable")):
+        for lp in walk_no_nested(fn.node):
+            iters = []
+            if isinstance(lp, ast.For):
+                iters.append(lp.iter)
+            if isinstance(lp, (ast.ListComp, ast.GeneratorExp)):
+                iters += [g.iter for g in lp.generators]
+            for itx in iters:
+                t = unparse(itx)
+                bad = re.match(r"(sorted|reversed|set|frozenset)\(", t) or ".sort(" in t
+                r.check(
+                    not bad,
+                    f"{fn.name}: iteration over {t[:40]} keeps the stored order",
+                    f"persist:{fn.name}:order",
+                    f"{fn.name} iterates {t[:80]}: the order of actions/cells in the file then "
+                    "differs from the order in memory, so a loaded table is not the computed one "
+                    "(first action of a cell, conflict reports, forest order)",
+                    node=lp,
+                )
+
+
 def rule_schema(rep):
     with rep.rule(
         "R12.schema",
@@ -513,26 +539,7 @@ def rule_schema(rep):
             ("Action(json_action['action'], act_state, act_prod)", "Action(kind, state, prod) rebuilt"),
         ):
             r.check(want in rtxt, what, f"persist:reader:{what}", f"reader no longer does: {want}", node=rd.node)
-        # order preservation: loops over actions / cells iterate the container itself
-        for fn in (ds, da, rd, repo.func("parglare.tables.persist.table_to_serializable")):
-            for lp in walk_no_nested(fn.node):
-                iters = []
-                if isinstance(lp, ast.For):
-                    iters.append(lp.iter)
-                if isinstance(lp, (ast.ListComp, ast.GeneratorExp)):
-                    iters += [g.iter for g in lp.generators]
-                for itx in iters:
-                    t = unparse(itx)
-                    bad = re.match(r"(sorted|reversed|set|frozenset)\(", t) or ".sort(" in t
-                    r.check(
-                        not bad,
-                        f"{fn.name}: iteration over {t[:40]} keeps the stored order",
-                        f"persist:{fn.name}:order",
-                        f"{fn.name} iterates {t[:80]}: the order of actions/cells in the file then "
-                        "differs from the order in memory, so a loaded table is not the computed one "
-                        "(first action of a cell, conflict reports, forest order)",
-                        node=lp,
-                    )
+        persist_order_checks(r, repo)
         # cell keys are fully qualified names (the reader looks them up by fqn)
         for k in ("actions", "gotos"):
             st = next((st for kk, _, st in w_state if kk == k), None)
